@@ -134,7 +134,23 @@ func c11Run(tp *core.Tape, e *core.Env) {
 	var curJobs []string
 	var curText string
 	newConfig := func() {
-		curTree, curJobs = cfggen.Config(tp, opts)
+		kind := 0
+		if curTree != nil {
+			kind = tp.Weighted("config_change", 5, 3, 2)
+		}
+		switch kind {
+		case 1: // only the external labels change (the config hash ignores them; the file must not)
+			t2 := cfggen.Clone(curTree).(*cfggen.Map)
+			g := t2.Get("global").(*cfggen.Map)
+			g.Del("external_labels")
+			g.Add("external_labels", cfggen.M(cfggen.KV{K: "cluster", V: cfggen.F(fmt.Sprintf("moved-%d", tp.Choose("ext_cluster", 50)))}, cfggen.KV{K: "added", V: cfggen.F("x")}))
+			curTree = t2
+			e.Probe("config_change_external_labels_only")
+		case 2: // the same configuration in another YAML style
+			e.Probe("config_change_style_only")
+		default:
+			curTree, curJobs = cfggen.Config(tp, opts)
+		}
 		curText = cfggen.Render(curTree, cfggen.DrawStyle(tp))
 	}
 	opt := sidecarsim.Options{Dir: dir, ShardMonitor: monitor}
